@@ -4,7 +4,7 @@ use indexmap::IndexSet;
 pub use options::{Options, Regex};
 use patch_flags::PatchFlags;
 use slot_flag::SlotFlag;
-use std::{borrow::Cow, collections::BTreeMap, mem};
+use std::{borrow::Cow, cell::Cell, collections::BTreeMap, mem};
 use swc_core::{
     common::{comments::Comments, Mark, Span, Spanned, SyntaxContext, DUMMY_SP},
     ecma::{
@@ -69,6 +69,9 @@ where
 
     assignment_left: Option<Ident>,
     injecting_consts: Vec<VarDeclarator>,
+
+    type_resolution_depth: Cell<u16>,
+    type_resolution_overflowed: Cell<bool>,
 }
 
 impl<C> VueJsxTransformVisitor<C>
@@ -96,6 +99,9 @@ where
 
             assignment_left: None,
             injecting_consts: Default::default(),
+
+            type_resolution_depth: Cell::new(0),
+            type_resolution_overflowed: Cell::new(false),
         }
     }
 
